@@ -337,26 +337,38 @@ def make_group(rng, n=None, k=None):
     weighted = bool(E) and rng.random() < 0.35
     A = gen.adjacency(n, E, True, weights=list(rng.uniform(0.2, 9.0, len(E))) if weighted else None)
     how = int(rng.integers(0, 3)) if not weighted else 0      # (the other constructors take an edge list: no weights)
+    intended = [(k_, v_.copy()) for k_, v_ in masks.items()]
     if how == 0:
         g = ms.LabelledPointUndirectedGraph(pts, A, masks)
-        if rng.random() < 0.5:
-            # the caller goes on using its own mask arrays (clears / refills its buffers): the group was given copies
-            exp = [(k_, v_.copy()) for k_, v_ in masks.items()]
-            for m_ in masks.values():
-                m_[...] = ~m_ if rng.random() < 0.5 else False
-            MUTATED_CALLER_MASKS[0] += 1
-            got = [(k_, np.array(v_, copy=True)) for k_, v_ in g._labels_to_masks.items()]
-            if [k_ for k_, _ in got] != [k_ for k_, _ in exp] or any(not np.array_equal(a_, b_) for (_, a_), (_, b_) in zip(got, exp)):
-                PENDING_FAILS.append(("editing_the_mask_arrays_handed_to_the_constructor_changed_the_group", "LabelledPointUndirectedGraph"))
-                # put things back so that the rest of the case judges an intact group
-                for (k_, v_) in exp:
-                    masks[k_][...] = v_
-        return g
-    if how == 1:
-        idx = OrderedDict((l, np.nonzero(m)[0]) for l, m in masks.items())
-        return ms.LabelledPointUndirectedGraph.init_from_indices_mapping(pts, np.asarray(A.todense()), idx)
-    e = np.array([(i, j) for i, j in zip(*np.nonzero(np.triu(np.asarray(A.todense()))))], dtype=int).reshape(-1, 2)
-    return ms.LabelledPointUndirectedGraph.init_from_edges(pts, e, masks)
+    elif how == 1:
+        # label -> indices, in any of the forms numpy accepts as an index: positions, positions counted from the end, a mask
+        idx = OrderedDict()
+        for l, m in masks.items():
+            form = int(rng.integers(0, 4))
+            pos = np.nonzero(m)[0]
+            idx[l] = pos if form == 0 else (pos - n) if form == 1 else m.copy() if form == 2 else [int(v) for v in pos]
+        g = ms.LabelledPointUndirectedGraph.init_from_indices_mapping(pts, np.asarray(A.todense()), idx)
+    else:
+        e = np.array([(i, j) for i, j in zip(*np.nonzero(np.triu(np.asarray(A.todense()))))], dtype=int).reshape(-1, 2)
+        g = ms.LabelledPointUndirectedGraph.init_from_edges(pts, e, masks)
+    # the group carries exactly the labels it was given ...
+    got = [(k_, np.array(v_, copy=True)) for k_, v_ in g._labels_to_masks.items()]
+    if [k_ for k_, _ in got] != [k_ for k_, _ in intended] or any(not np.array_equal(a_, b_) for (_, a_), (_, b_) in zip(got, intended)):
+        PENDING_FAILS.append(("constructed_group_does_not_carry_the_labels_it_was_given", "LabelledPointUndirectedGraph:" + ["constructor", "indices_mapping", "init_from_edges"][how]))
+    elif how in (0, 2) and rng.random() < 0.5:
+        # ... and owns them: the caller goes on using its own mask arrays and dictionary (clears / refills its buffers)
+        for m_ in masks.values():
+            m_[...] = ~m_ if rng.random() < 0.5 else False
+        masks["added_by_the_caller_later"] = np.ones(n, dtype=bool)
+        MUTATED_CALLER_MASKS[0] += 1
+        got = [(k_, np.array(v_, copy=True)) for k_, v_ in g._labels_to_masks.items()]
+        if [k_ for k_, _ in got] != [k_ for k_, _ in intended] or any(not np.array_equal(a_, b_) for (_, a_), (_, b_) in zip(got, intended)):
+            PENDING_FAILS.append(("editing_the_mask_arrays_handed_to_the_constructor_changed_the_group", "LabelledPointUndirectedGraph:" + ["constructor", "", "init_from_edges"][how]))
+            # put things back so that the rest of the case judges an intact group
+            masks.pop("added_by_the_caller_later", None)
+            for (k_, v_) in intended:
+                masks[k_][...] = v_
+    return g
 
 
 def w_groups(ctx, rng, i):
@@ -364,7 +376,7 @@ def w_groups(ctx, rng, i):
     g = make_group(rng)
     while PENDING_FAILS:
         clause, c_ = PENDING_FAILS.pop()
-        ctx.fail(clause, cls=c_)
+        ctx.fail(clause, cls=c_.split(":")[0], mech=c_.split(":")[1] if ":" in c_ else "")
     names = g.labels
     k = len(names)
     dropped = False
